@@ -16,7 +16,7 @@ EXTENDS VerifTrace, FiniteSets
 VARIABLES l, m
 mvars == <<l, m>>
 
-NoX == [s |-> "", kind |-> "", reqs |-> {}, from |-> -1, leid |-> "", stream |-> "?", status |-> 0, sse |-> FALSE,
+NoX == [s |-> "", kind |-> "", reqs |-> {}, rids |-> {}, from |-> -1, leid |-> "", stream |-> "?", status |-> 0, sse |-> FALSE,
         n |-> 0, cut |-> FALSE, ended |-> FALSE, mayConflict |-> FALSE, known |-> FALSE]
 
 M0 == [store |-> FALSE, json |-> FALSE, stateless |-> FALSE,
@@ -25,7 +25,9 @@ M0 == [store |-> FALSE, json |-> FALSE, stateless |-> FALSE,
        xs    |-> <<>>,     \* exchange name -> record
        st    |-> <<>>,     \* <<session, stream>> -> sequence of tags: the store's append order (ground truth)
        own   |-> <<>>,     \* <<session, stream>> -> requests of the POST that created the stream
+       ownid |-> <<>>,     \* <<session, stream>> -> their JSON-RPC ids
        ids   |-> <<>>,     \* <<session, stream, idx>> -> tag first delivered under that event id
+       rets  |-> {},       \* <<session, request>> whose handler has returned its result
        cleanup |-> FALSE]
 
 Get(f, k, d) == IF k \in DOMAIN f THEN f[k] ELSE d
@@ -33,8 +35,10 @@ Put(f, k, v) == [y \in DOMAIN f \cup {k} |-> IF y = k THEN v ELSE f[y]]
 X(n) == Get(m.xs, n, NoX)
 Log(s, t) == Get(m.st, <<s, t>>, <<>>)
 Own(s, t) == Get(m.own, <<s, t>>, {})
+OwnId(s, t) == Get(m.ownid, <<s, t>>, {})
 \* the requests whose responses / nested messages belong on exchange xr
 ReqsOf(xr) == IF xr.kind = "get" THEN (IF xr.stream = "" THEN {} ELSE Own(xr.s, xr.stream)) ELSE xr.reqs
+RidsOf(xr) == IF xr.kind = "get" THEN (IF xr.stream = "" THEN {} ELSE OwnId(xr.s, xr.stream)) ELSE xr.rids
 Standalone(xr) == xr.kind = "get" /\ xr.stream = ""
 \* C08's scope
 Scope(xr) == m.store /\ ~m.stateless /\ xr.sse /\ xr.kind \in {"init", "call", "get"}
@@ -46,13 +50,14 @@ MInit == l = 1 /\ m = M0 /\ MarkInit
 OnBegin(e) ==
   LET strm == IF e.kind = "get" THEN e.stream ELSE "?"
       busy == \E y \in DOMAIN m.xs : m.xs[y].s = e.s /\ m.xs[y].stream = strm /\ ~m.xs[y].ended /\ m.xs[y].kind \in {"init", "call", "get"}
-  IN m' = [m EXCEPT !.xs = Put(m.xs, e.x, [NoX EXCEPT !.s = e.s, !.kind = e.kind, !.reqs = AsSet(e.reqs), !.from = e.lidx,
+  IN m' = [m EXCEPT !.xs = Put(m.xs, e.x, [NoX EXCEPT !.s = e.s, !.kind = e.kind, !.reqs = AsSet(e.reqs), !.rids = AsSet(e.rids), !.from = e.lidx,
                                                        !.leid = e.leid, !.stream = strm, !.mayConflict = busy, !.known = TRUE])]
 
 OnOpen(e) ==
   IF e.x \in DOMAIN m.xs /\ e.stream # "" /\ ~e.err
   THEN m' = [m EXCEPT !.xs = Put(m.xs, e.x, [X(e.x) EXCEPT !.stream = e.stream]),
-                      !.own = Put(m.own, <<e.s, e.stream>>, X(e.x).reqs)]
+                      !.own = Put(m.own, <<e.s, e.stream>>, X(e.x).reqs),
+                      !.ownid = Put(m.ownid, <<e.s, e.stream>>, X(e.x).rids)]
   ELSE m' = m
 
 OnAppend(e) ==
@@ -82,7 +87,6 @@ OnEv(e) ==
   /\ m' = [m EXCEPT !.xs = Put(m.xs, e.x, [xr EXCEPT !.n = j]),
                     !.ids = IF e.idx >= 0 /\ idk \notin DOMAIN m.ids THEN Put(m.ids, idk, TagOf(e)) ELSE @]
   /\ Check(l, "X.Known", xr.known)
-  /\ Check(l, "X.Untagged", (msg /\ ~m.cleanup) => e.tag # "")
   \* ---- C08
   /\ IF Scope(xr) /\ ~m.cleanup
      THEN /\ Check(l, "C08.IdsDense", e.idx = xr.from + j /\ e.stream = xr.stream)
@@ -98,7 +102,10 @@ OnEv(e) ==
              ELSE IF e.or = "sa" \/ m.json
                   THEN Check(l, "C10.NestedOnStandalone", e.os = xr.s /\ Standalone(xr))
                   ELSE Check(l, "C10.NestedOnRequestStream", e.os = xr.s /\ e.or \in ReqsOf(xr))
-     ELSE TRUE
+     ELSE IF e.kind = "resp" /\ e.tag = "" /\ ~m.cleanup
+          \* a response the SDK produced itself (an error): attributable by its JSON-RPC id only
+          THEN Check(l, "C10.ResponseOnOwnExchange", e.rid \in RidsOf(xr))
+          ELSE TRUE
 
 \* the server ended the exchange (not the client, not a session termination): the client has everything
 OnEnd(e) ==
@@ -108,11 +115,13 @@ OnEnd(e) ==
      THEN Check(l, "C08.CompleteAtEnd", xr.from + xr.n + 1 = Len(Log(xr.s, xr.stream)))
      ELSE TRUE
 
-\* a write the server reported as successful is part of the stream's history
+\* "including messages written while no connection was attached": with a store, every message the server
+\* writes on a live session (attached or not) becomes part of some stream's history
+Recorded(s, tag) == \E k \in DOMAIN m.st : k[1] = s /\ \E i \in DOMAIN m.st[k] : m.st[k][i] = tag
 OnEmitEnd(e) ==
   /\ m' = m
-  /\ IF m.store /\ ~m.stateless /\ e.err = "" /\ e.s \notin m.dead /\ ~m.cleanup
-     THEN Check(l, "C08.WriteRecorded", \E k \in DOMAIN m.st : k[1] = e.s /\ \E i \in DOMAIN m.st[k] : m.st[k][i] = e.tag)
+  /\ IF m.store /\ ~m.stateless /\ e.s \notin m.dead /\ ~m.cleanup
+     THEN Check(l, "C08.WriteRecorded", e.err = "" /\ Recorded(e.s, e.tag))
      ELSE TRUE
 
 \* the handler of a request runs in the session the request was posted to
@@ -123,6 +132,9 @@ OnHStart(e) ==
 \* at rest, with everything the environment owes discharged: an exchange that is still attached has everything
 OnQuiesce(e) ==
   /\ m' = m
+  /\ IF m.store /\ ~m.stateless
+     THEN \A p \in m.rets : p[1] \notin m.dead => Check(l, "C08.WriteRecorded", Recorded(p[1], p[1] \o "." \o p[2] \o ".resp"))
+     ELSE TRUE
   /\ \A n \in DOMAIN m.xs :
        LET xr == m.xs[n] IN
        IF Scope([xr EXCEPT !.sse = (xr.sse \/ (xr.status = 0 /\ ~m.json))]) /\ ~xr.ended /\ ~xr.cut
@@ -145,6 +157,7 @@ Step(e) ==
     [] e.ev = "x.end"    -> IF X(e.x).known THEN OnEnd(e) ELSE m' = m
     [] e.ev = "h.emit.end" -> OnEmitEnd(e)
     [] e.ev = "h.start"  -> OnHStart(e)
+    [] e.ev = "h.end"    -> m' = [m EXCEPT !.rets = IF e.how = "ret" THEN @ \cup {<<e.s, e.r>>} ELSE @]
     [] e.ev = "quiesce"  -> OnQuiesce(e)
     [] e.ev = "panic"    -> m' = m /\ Fail(l, "C08.NoPanic") /\ Fail(l, "C10.NoPanic")
     [] e.ev = "setup.error" -> m' = m /\ Fail(l, "X.Setup")
